@@ -20,6 +20,15 @@ ALLOWED_AXIOMS = {
     "ClassicalDedekindReals.sig_not_dec", "ClassicalDedekindReals.sig_forall_dec",
     "FunctionalExtensionality.functional_extensionality_dep", "Classical_Prop.classic",
 }
+# Coq's native binary64 floats / 63-bit integers are kernel primitives, which Print Assumptions lists under "Axioms:" by their
+# short names; they are not declarations of this development (FORBIDDEN rules those out in every file of the cone) and are
+# recognised by their exact signature only.  Theorems about the bit-exact float models (C04) depend on them; DESIGN section 7.
+KERNEL_PRIMITIVES = {
+    "float : Set", "add : float -> float -> float", "sub : float -> float -> float", "mul : float -> float -> float",
+    "div : float -> float -> float", "opp : float -> float", "abs : float -> float", "sqrt : float -> float",
+    "eqb : float -> float -> bool", "ltb : float -> float -> bool", "leb : float -> float -> bool",
+    "compare : float -> float -> float_comparison", "classify : float -> float_class", "of_uint63 : int -> float", "int : Set",
+}
 STMT = re.compile(r"^\s*(?:Local\s+|Global\s+|#\[[^\]]*\]\s*)?(Theorem|Lemma|Corollary|Example|Proposition|Fact|Remark)\s+([A-Za-z0-9_']+)", re.M)
 
 
@@ -122,13 +131,18 @@ def check_props(pid: str, tier: str = "quick") -> dict:
                 res["failures"].append("coqc Props failed: " + out2.strip()[-400:])
             closed = out2.count("Closed under the global context")
             axioms = []
+            primitives = []
             for blk in re.split(r"\n(?=Axioms:)", out2):
                 if blk.startswith("Axioms:"):
                     for line in blk.splitlines()[1:]:
+                        if " ".join(line.split()) in KERNEL_PRIMITIVES:
+                            primitives.append(" ".join(line.split()))
+                            continue
                         mm = re.match(r"^([A-Za-z0-9_.']+)\s*(?::|$)", line)
                         if mm:
                             axioms.append(mm.group(1))
             res["axioms"] = sorted(set(axioms))
+            res["kernel_primitives"] = sorted(set(primitives))
             # only axioms the standard library itself declares may appear (the real numbers behind Flocq, C09's
             # floating-point theorems; DESIGN section 7 names each of them)
             for a in res["axioms"]:
